@@ -1035,7 +1035,7 @@ func (c *ctx) vecEv() {
 			}
 		}
 		if which == 2 {
-			base := []float64{2, 10, math.E, 1.5}[g.Intn(4)]
+			base := []float64{2, 10, math.E, 1.5, 0.5, 0.1, 1}[g.Intn(7)] // bases below 1 decrease; base 1 is constant
 			var lg []float64
 			if !c.try("vec.Logspace", "", func() { lg = vec.Logspace(lo, hi, num, base) }) {
 				return
@@ -1061,7 +1061,7 @@ func (c *ctx) vecEv() {
 					continue
 				}
 				want := refmodel.F(refmodel.Exp(e))
-				if math.Abs(v-want) > 8*refmodel.Eps*(1+math.Abs(refmodel.F(e)))*want {
+				if math.Abs(v-want) > 8*refmodel.Eps*(1+math.Abs(refmodel.F(e)))*want+2*math.SmallestNonzeroFloat64 { // (a subnormal result has no relative precision to speak of)
 					c.fail("vec", "vec.Logspace", "value", "Logspace(%v,%v,%d,%v)[%d]=%v, base^Linspace is %v", lo, hi, num, base, i, v, want)
 					return
 				}
